@@ -27,7 +27,7 @@ RULE = ("history + executable model: a pool of live points (several scalings, ne
 ASSUMPTIONS = ["reference arithmetic / RFC 6979 / SEC1 encoders (vf/ref)", "pickle and copy are trusted",
                "walks on curves of odd order only (2-torsion conflation is the C06 known finding)"]
 REQUIRED = {"quick": ["twin_keys", "cross_curve", "step", "invariant", "sweep", "eq_laws", "pickle", "after.scale_rewrite", "after.table_built", "after.precompute_swap",
-                      "seq.exhaustive", "key.sign", "key.verify", "key.serialise"]}
+                      "seq.exhaustive", "key.sign", "key.verify", "key.serialise", "fault.point_op", "fault.key_op"]}
 EXHAUSTIVE = {"quick": ["all sequences of length <= 3 over 14 operations on two objects of one toy curve"],
               "thorough": ["all sequences of length <= 4 over 14 operations on two objects, on 3 toy curves"]}
 
@@ -49,6 +49,9 @@ def shards(tier, seed):
     out.append(("child_seq", dict(kind="seq", part=0, parts=8 if q else 16, maxlen=3, ncurves=1, _pyopt="opt")))
     out.append(("cross_curve", dict(kind="cross", rounds=40 if q else 600)))
     out.append(("twin_keys", dict(kind="twin", rounds=30 if q else 600, steps=14)))
+    for i in range(2 if q else 8):
+        out.append(("fault_points_%d" % i, dict(kind="fault_points", rounds=10 if q else 60)))
+    out.append(("fault_keys", dict(kind="fault_keys", rounds=3 if q else 20)))
     return out
 
 
@@ -604,8 +607,195 @@ def twin_keys(ctx, rng, rounds, steps):
                 break
 
 
+# --------------------------------------------------------------------------- interrupted operations (source-free failpoints)
+
+
+def fault_points(ctx, rng, rounds):
+    """An operation on a point is interrupted (KeyboardInterrupt / MemoryError raised at one of its line events inside the point class or
+    the modular inverse); afterwards the operands answer like fresh objects, and the same operation, repeated, gives the right result."""
+    from vf import sched
+    from ecdsa import ellipticcurve as _ec, numbertheory as _nt
+    codes = sched.codes_of(_ec.PointJacobi) + sched.codes_of(_ec.Point) + sched.codes_of(_ec.CurveFp) + [_nt.inverse_mod.__code__]
+    ts = sigs.toy_prime_curves(13, 61)
+    for _ in range(rounds):
+        t = ts[rng.randrange(len(ts))]
+        dom = t.domain()
+        cfp = lib.CurveFp(dom.curve.p, dom.curve.a, dom.curve.b, 1)
+        cv, p, n = dom.curve, dom.curve.p, dom.n
+        PA, PB = cv.mul(rng.randrange(1, n), dom.G), cv.mul(rng.randrange(1, n), dom.G)
+        zA, zB = rng.randrange(1, p), rng.randrange(1, p)
+        prefix = tuple(rng.choice(SEQ_OPS) for _ in range(rng.randrange(0, 3)))
+        op_name = rng.choice(SEQ_OPS)
+        fam = "toy%r" % (cv.key(),)
+
+        def make(prefix=prefix, op_name=op_name, PA=PA, PB=PB, zA=zA, zB=zB, dom=dom, cfp=cfp, cv=cv, p=p, n=n):
+            A = lib.mk_jac(cfp, PA, zA, n, True)
+            B = lib.mk_jac(cfp, PB, zB, n, False)
+            box = {"A": A, "B": B}
+
+            def apply(o):
+                A, B = box["A"], box["B"]
+                if o == "A.x":
+                    return A.x(), PA[0], False
+                if o == "A.y":
+                    return A.y(), PA[1], False
+                if o == "A.scale":
+                    return A.scale() is A, True, False
+                if o == "A.to_affine":
+                    return A.to_affine(), PA, True
+                if o == "A*5":
+                    return A * 5, cv.mul(5, PA), True
+                if o == "A*n1":
+                    return A * (n - 1), cv.neg(PA), True
+                if o == "A+B":
+                    return A + B, cv.add(PA, PB), True
+                if o == "B+A":
+                    return B + A, cv.add(PA, PB), True
+                if o == "A.double":
+                    return A.double(), cv.dbl(PA), True
+                if o == "-A":
+                    return -A, cv.neg(PA), True
+                if o == "A==B":
+                    return A == B, PA == PB, False
+                if o == "A.mul_add":
+                    return A.mul_add(3, B, 2), cv.add(cv.mul(3, PA), cv.mul(2, PB)), True
+                if o == "pickleA":
+                    return pickle.loads(pickle.dumps(A)), PA, True
+                return B.scale() is B, True, False
+            for o in prefix:
+                apply(o)
+            exp = {}
+
+            def op():
+                r, e, pt = apply(op_name)
+                exp["e"], exp["pt"] = e, pt
+                return r
+
+            def expected_ok(r):
+                return judge_point(r, exp["e"], p, deep=False) if exp["pt"] else (None if r == exp["e"] else "got %r expected %r" % (r, exp["e"]))
+
+            def after():
+                for nm, obj, P in (("A", box["A"], PA), ("B", box["B"], PB)):
+                    bad = invariant(cv, obj, P) or judge_point(obj, P, p, deep=False) or judge_point(obj * 7, cv.mul(7, P), p, deep=False) or judge_point(pickle.loads(pickle.dumps(obj)), P, p, deep=False) or judge_point(obj, P, p, deep=True)
+                    if bad:
+                        return "operand %s: %s" % (nm, bad)
+                r, e, pt = apply(op_name)     # the same operation again, uninterrupted
+                bad = judge_point(r, e, p, deep=False) if pt else (None if r == e else "got %r expected %r" % (r, e))
+                if bad:
+                    return "the repeated operation gives: %s" % bad
+                if judge_point(box["A"] + box["B"], cv.add(PA, PB), p, deep=False):
+                    return "A + B is wrong afterwards"
+                return None
+            return op, expected_ok, after
+        sched.fault_injection(ctx, codes, [("%s after %s" % (op_name, "/".join(prefix) or "-"), make)], rng, cls="fault.point_op", max_points=24)
+
+
+def fault_keys(ctx, rng, rounds):
+    """The same for keys: verification (first use builds the multiplication table of the public point), precompute(), deterministic signing,
+    serialisation and pickling are interrupted; afterwards the key verifies / signs / serialises like a fresh one."""
+    from vf import sched
+    from ecdsa import ellipticcurve as _ec, numbertheory as _nt, keys as _keys, ecdsa as _ecdsa
+    codes = (sched.codes_of(_ec.PointJacobi) + sched.codes_of(_ec.Point) + [_nt.inverse_mod.__code__] + sched.codes_of(_keys.VerifyingKey) + sched.codes_of(_keys.SigningKey)
+             + sched.codes_of(_ecdsa.Public_key) + sched.codes_of(_ecdsa.Private_key))
+    ts = sigs.toy_prime_curves(11, 61)
+    doms = []
+    for _ in range(rounds):
+        doms.append(sigs.toy_lib_curve(ts[rng.randrange(len(ts))]))
+    c112 = lib.BY_NAME["SECP112r2"]
+    doms.append((c112, lib.dom_of(c112)))
+    hf = hashlib.sha256
+    for c, dom in doms:
+        n = dom.n
+        d = rng.randrange(1, n)
+        Q = ecdsa_ref.pubkey(dom, d)
+        msg = b"c19 interrupted"
+        dg = hf(msg).digest()
+        e = ecdsa_ref.digest_to_e(dom, dg, True)
+        retry = 0
+        while True:
+            kk = rfc6979_ref.generate_k(n, d, hf, dg, retry)
+            want = ecdsa_ref.sign(dom, d, kk, e)
+            if isinstance(want, tuple):
+                break
+            retry += 1
+        good = sigs.ref_encode("string", want[0], want[1], n)
+        s_bad = next(sb for sb in range(1, n) if not ecdsa_ref.verify(dom, Q, e, want[0], (want[1] + sb) % n))
+        badsig = sigs.ref_encode("string", want[0], (want[1] + s_bad) % n, n)
+        pub = sec1.encode_point(dom, Q, "uncompressed")
+        raw = sec1.encode_point(dom, Q, "raw")
+        for op_name in ("verify", "verify_bad", "precompute", "precompute_lazy", "sign", "to_string", "pickle_vk", "pickle_sk", "verify_after_lazy"):
+            def make(op_name=op_name, c=c, d=d):
+                sk = ecdsa.SigningKey.from_secret_exponent(d, c, hf)
+                vk = ecdsa.VerifyingKey.from_string(pub, c, hf) if op_name != "sign" else sk.verifying_key
+                if op_name == "verify_after_lazy":
+                    vk.precompute(lazy=True)
+                box = {}
+
+                def vbad(v):
+                    try:
+                        v.verify(badsig, msg)
+                    except ecdsa.BadSignatureError:
+                        return True
+                    return False
+
+                def op():
+                    if op_name in ("verify", "verify_after_lazy"):
+                        return vk.verify(good, msg)
+                    if op_name == "verify_bad":
+                        return vbad(vk)
+                    if op_name == "precompute":
+                        return vk.precompute(lazy=False)
+                    if op_name == "precompute_lazy":
+                        return vk.precompute(lazy=True)
+                    if op_name == "sign":
+                        return sk.sign_deterministic(msg, hashfunc=hf, sigencode=util.sigencode_string)
+                    if op_name == "to_string":
+                        return vk.to_string("uncompressed")
+                    if op_name == "pickle_vk":
+                        box["cp"] = pickle.loads(pickle.dumps(vk))
+                        return True
+                    box["cp"] = pickle.loads(pickle.dumps(sk))
+                    return True
+
+                def expected_ok(r):
+                    if op_name in ("verify", "verify_after_lazy", "verify_bad"):
+                        return None if r is True else "verify outcome %r" % (r,)
+                    if op_name == "sign":
+                        return None if bytes(r) == good else "signature %s, expected %s" % (bytes(r).hex(), good.hex())
+                    if op_name == "to_string":
+                        return None if bytes(r) == pub else "encoding %s" % bytes(r).hex()
+                    return None
+
+                def after():
+                    keys_ = [("vk", vk), ("sk.vk", sk.verifying_key)]
+                    cp = box.get("cp")
+                    if cp is not None:
+                        keys_.append(("restored", cp.verifying_key if op_name == "pickle_sk" else cp))
+                    for nm, v in keys_:
+                        if v.verify(good, msg) is not True:
+                            return "%s does not verify a valid signature" % nm
+                        if not vbad(v):
+                            return "%s accepts a forged signature" % nm
+                        if bytes(v.to_string("raw")) != raw:
+                            return "%s serialises to %s" % (nm, bytes(v.to_string("raw")).hex())
+                        if (v == ecdsa.VerifyingKey.from_string(pub, c, hf)) is not True:
+                            return "%s is not equal to a fresh key of the same value" % nm
+                    sg = sk.sign_deterministic(msg, hashfunc=hf, sigencode=util.sigencode_string)
+                    if bytes(sg) != good:
+                        return "the signing key signs %s, a fresh one %s" % (bytes(sg).hex(), good.hex())
+                    if op_name == "pickle_sk" and cp is not None and bytes(cp.to_string()) != bytes(sk.to_string()):
+                        return "restored signing key holds another scalar"
+                    return None
+                return op, expected_ok, after
+            sched.fault_injection(ctx, codes, [("%s:%s" % ("toy" if c is not c112 else c.name, op_name), make)], rng, cls="fault.key_op", max_points=14 if c is c112 else 20)
+
+
 def run(ctx, name, kind, **kw):
     rng = ctx.rng
+    if kind == "fault_points":
+        return fault_points(ctx, rng, kw["rounds"])
+    if kind == "fault_keys":
+        return fault_keys(ctx, rng, kw["rounds"])
     if kind == "twin":
         return twin_keys(ctx, rng, kw["rounds"], kw["steps"])
     if kind == "walk":
